@@ -67,12 +67,12 @@ theorem C14_no_disturb (s : St) (c : Cmd) (hs : s.stopped = false) (hlive : s.ki
 theorem C14_msg_no_panic (s : St) (sender : Nat) : hasPanic (step Cfg.repaired s (.mpcMsg sender)).2 = false := by
   by_cases hst : s.stopped <;> by_cases hb : sender < s.chanLen <;> simp [step, Cfg.repaired, hasPanic, hst, hb]
 
-/-! ### C16: incompatible policies are rejected (both arrival orders), for the pinned step function -/
+/-! ### C16: incompatible policies are rejected (both arrival orders), for the step function that models the current tree -/
 
 /-- validate arrives after the follower's schedule (`AwaitingValidation`): mismatch ⇒ validate error, schedule reply dropped, actor stops. -/
 theorem C16_mismatch_after_schedule (s : St) (p : Pol) (r : VReq) (hs : s.stopped = false) (hk : s.kind = .awaitingValidation) (hp : s.pol = some p)
     (hm : r.leader ≠ p.leader ∨ r.hash ≠ p.hash) :
-    let e := (step Cfg.pinned s (.validate r)).2
+    let e := (step Cfg.current s (.validate r)).2
     (∃ err, Eff.reply "validate" false err ∈ e) ∧ Eff.replyDropped "schedule" ∈ e ∧ hasStop e = true ∧ Eff.reply "schedule" true "" ∉ e := by
   by_cases h1 : r.leader = p.leader <;> by_cases h2 : r.hash = p.hash <;> simp_all [step, stopWith, hasStop] <;> (split <;> simp_all)
 
@@ -80,13 +80,13 @@ theorem C16_mismatch_after_schedule (s : St) (p : Pol) (r : VReq) (hs : s.stoppe
     (an error reply, or its reply channel is dropped) and the actor stops. -/
 theorem C16_mismatch_before_schedule (s : St) (p : Pol) (r : VReq) (hs : s.stopped = false) (hk : s.kind = .validateRequested) (hv : s.vreq = some r)
     (hw : p.wellTyped = true) (hf : p.party ≠ p.leader) (hm : r.leader ≠ p.leader ∨ r.hash ≠ p.hash) :
-    let e := (step Cfg.pinned s (.schedule p)).2
+    let e := (step Cfg.current s (.schedule p)).2
     ((∃ err, Eff.reply "schedule" false err ∈ e) ∨ Eff.replyDropped "schedule" ∈ e) ∧ hasStop e = true ∧ Eff.reply "schedule" true "" ∉ e := by
-  by_cases h1 : r.leader = p.leader <;> by_cases h2 : r.hash = p.hash <;> simp_all [step, stopWith, hasStop, initChannel, Cfg.pinned] <;> (split <;> simp_all)
+  by_cases h1 : r.leader = p.leader <;> by_cases h2 : r.hash = p.hash <;> simp_all [step, stopWith, hasStop, initChannel, Cfg.current] <;> (split <;> simp_all)
 
 /-- an ill-typed program is refused by its own party's schedule call. -/
 theorem C16_illtyped (s : St) (p : Pol) (hs : s.stopped = false) (hw : p.wellTyped = false) :
-    Eff.reply "schedule" false "InvalidProgram" ∈ (step Cfg.pinned s (.schedule p)).2 := by
-  simp [step, hs, hw, Cfg.pinned, stopWith]
+    Eff.reply "schedule" false "InvalidProgram" ∈ (step Cfg.current s (.schedule p)).2 := by
+  by_cases hk : s.kind = .init <;> simp [step, hs, hw, hk, Cfg.current, Cfg.repaired, stopWith]
 
 end PolytuneModel.Server
